@@ -20,6 +20,9 @@ pub struct Mp4Writer<W> {
     mdat_pos: u64,
     timescale: u32,
     duration: u64,
+    // Where the media data ended when a write_end that did not complete left the stream
+    // inside the mdat header; the next call continues from there.
+    resume_at: Option<u64>,
 }
 
 impl<W> Mp4Writer<W> {
@@ -82,6 +85,7 @@ impl<W: Write + Seek> Mp4Writer<W> {
             mdat_pos,
             timescale,
             duration,
+            resume_at: None,
         })
     }
 
@@ -103,6 +107,7 @@ impl<W: Write + Seek> Mp4Writer<W> {
             return Err(Error::TrakNotFound(track_id));
         }
 
+        self.resume()?;
         let track_dur = if let Some(ref mut track) = self.tracks.get_mut(track_id as usize - 1) {
             track.write_sample(&mut self.writer, sample, self.timescale)?
         } else {
@@ -124,6 +129,9 @@ impl<W: Write + Seek> Mp4Writer<W> {
             .ok_or(Error::InvalidData(
                 "stream is positioned before the end of the mdat header",
             ))?;
+        // From here on the stream stands inside the header until the final seek succeeds; if
+        // anything fails in between, the next call goes back behind the media data first.
+        self.resume_at = Some(mdat_end);
         if mdat_size > std::u32::MAX as u64 {
             self.writer.seek(SeekFrom::Start(self.mdat_pos))?;
             self.writer.write_u32::<BigEndian>(1)?;
@@ -133,13 +141,22 @@ impl<W: Write + Seek> Mp4Writer<W> {
             self.writer.seek(SeekFrom::Start(self.mdat_pos))?;
             self.writer.write_u32::<BigEndian>(mdat_size as u32)?;
         }
-        self.writer.seek(SeekFrom::Start(mdat_end))?;
+        self.resume()
+    }
+
+    /// Go back behind the media data if a write_end that failed left the stream elsewhere.
+    fn resume(&mut self) -> Result<()> {
+        if let Some(pos) = self.resume_at {
+            self.writer.seek(SeekFrom::Start(pos))?;
+            self.resume_at = None;
+        }
         Ok(())
     }
 
     pub fn write_end(&mut self) -> Result<()> {
         let mut moov = MoovBox::default();
 
+        self.resume()?;
         for track in self.tracks.iter_mut() {
             moov.traks.push(track.write_end(&mut self.writer)?);
         }
